@@ -3,8 +3,9 @@ From Coq Require Import ZArith NArith List Bool Arith.
 Import ListNotations.
 From HV Require Export lib.Harness model.Types model.TypesEq model.Values spec.TypesS spec.ValuesS.
 
-Inductive case :=
-| CVal (std : stddefs) (e : vexpr)
+(* one observation of a constant: v.type_(), v._to_serial_root(), and every place that must offer the reported type *)
+Inductive moment :=
+| MVal (e : vexpr)                (* the value held at this moment (printed from the description of that moment) *)
        (oty : option ty)          (* v.type_() (API object); None = building the value or type_() raised *)
        (oser : option sval)       (* v._to_serial_root(), decoded from its JSON dump *)
        (ports : option (list ty)) (* every place that must offer the reported type: Const static out-port kind,
@@ -12,6 +13,14 @@ Inductive case :=
                                      the serial LoadConstant datatype — for load(value) and add_const + load(node) *)
        (nin : nat)                (* number of inputs of the LoadConst signatures (must be 0) *)
        (linked : bool).           (* Const out-port 0 is linked to LoadConst in-port 0 *)
+
+Inductive case :=
+| CVal (std : stddefs) (e : vexpr) (oty : option ty) (oser : option sval) (ports : option (list ty))
+       (nin : nat) (linked : bool)                      (* a freshly built value, observed once (fields as in MVal) *)
+| CSeq (std : stddefs) (ms : list moment).              (* a history on ONE Const node / value object: the value is
+                                                           changed between the observations (in place, op.val
+                                                           re-assigned, op replaced); the second load is always a
+                                                           NEW load(node) of the node that lived through the history *)
 
 Definition cname_eqb (a b : cname) : bool :=
   match a, b with
@@ -23,7 +32,11 @@ Definition fsig_eqb (a b : fsig) : bool :=
   rows_sameb (fs_in a) (fs_in b) && rows_sameb (fs_out a) (fs_out b) && list_eqb N.eqb (fs_reqs a) (fs_reqs b).
 
 (* serial values compared with types up to the normal form (the model keeps API types, the observation is
-   decoded from JSON where extension types are opaque) *)
+   decoded from JSON where extension types are opaque).  a = the observation, b = the model's.
+   Extension lists: the property promises that a std constant "names its defining extension AMONG the extensions
+   it uses" — the list the model writes (the defining extension) must be included in the observed one, which may
+   name more (e.g. the requirements of nested element values, as hugr-core's extension_reqs does); no order is
+   promised.  A raw val.Extension (payload SPOther) passes the caller's list through: compared as a set. *)
 Fixpoint sval_eqb (a b : sval) {struct a} : bool :=
   let fix all (l m : list sval) : bool :=
     match l, m with [], [] => true | x :: r, y :: s => sval_eqb x y && all r s | _, _ => false end in
@@ -32,7 +45,8 @@ Fixpoint sval_eqb (a b : sval) {struct a} : bool :=
   | STuple v1, STuple v2 => all v1 v2
   | SFunc d1 i1 o1, SFunc d2 i2 o2 => fsig_eqb d1 d2 && rows_sameb i1 i2 && rows_sameb o1 o2
   | SExt n1 t1 p1 e1, SExt n2 t2 p2 e2 =>
-      cname_eqb n1 n2 && same_tyb t1 t2 && payload_eqb p1 p2 && seteq_b N.eqb e1 e2   (* extension sets: no order promised *)
+      cname_eqb n1 n2 && same_tyb t1 t2 && payload_eqb p1 p2 &&
+      match p2 with SPOther => seteq_b N.eqb e1 e2 | _ => incl_b N.eqb e2 e1 end
   | _, _ => false
   end
 with payload_eqb (a b : spayload) {struct a} : bool :=
@@ -46,16 +60,40 @@ with payload_eqb (a b : spayload) {struct a} : bool :=
   | _, _ => false
   end.
 
+(* A description outside the property's domain (not wf_expr: raw Sum / UnitSum tag out of range, caller-chosen field /
+   element type that is not the fields', width above 6) that the implementation REFUSES (building the value,
+   type_() or serialising raises) is an accepted observation: the model mirrors constructors that do not check,
+   and a constructor that does check breaks nothing the property says.  Inside the domain, and whenever a value
+   IS built, the comparison is strict. *)
+Definition refused (oty : option ty) (oser : option sval) : bool :=
+  match oty, oser with Some _, Some _ => false | _, _ => true end.
+
+Definition corr_obs (std : stddefs) (e : vexpr) (o : hobs) (oty : option ty) (oser : option sval)
+                    (ports : option (list ty)) (nin : nat) (linked : bool) : bool :=
+  (negb (wf_expr std e) && refused oty oser) ||
+  (option_eqb ty_eqb oty (ho_type o) &&
+   option_eqb sval_eqb oser (ho_ser o) &&
+   match ports, ho_port o, ho_load o with
+   | Some ps, Some t, Some (i, [o]) =>
+       forallb (same_tyb t) ps && same_tyb o t && Nat.eqb nin (length i) && linked
+   | None, None, None => true
+   | _, _, _ => false
+   end).
+Definition corr_moment (std : stddefs) (o : hobs) (m : moment) : bool :=
+  match m with MVal e oty oser ports nin linked => corr_obs std e o oty oser ports nin linked end.
+Definition moment_expr (m : moment) : vexpr := match m with MVal e _ _ _ _ _ => e end.
+Fixpoint all2 {A B} (f : A -> B -> bool) (l : list A) (m : list B) : bool :=
+  match l, m with [], [] => true | x :: r, y :: s => f x y && all2 f r s | _, _ => false end.
+
 Definition corr (c : case) : bool :=
   match c with
-  | CVal std e oty oser ports nin linked =>
-      option_eqb ty_eqb oty (type_of std e) &&
-      option_eqb sval_eqb oser (ser std e) &&
-      match ports, const_port_type std e, load_sig std e with
-      | Some ps, Some t, Some (i, [o]) =>
-          forallb (same_tyb t) ps && same_tyb o t && Nat.eqb nin (length i) && linked
-      | None, None, None => true
-      | _, _, _ => false
+  | CVal std e oty oser ports nin linked => corr_obs std e (observe_const std e) oty oser ports nin linked
+  | CSeq std ms =>
+      (* the model's history: the node is made to hold the value of each moment, then observed *)
+      match ms with
+      | [] => false
+      | m0 :: _ =>
+          all2 (corr_moment std) (run_hist std (moment_expr m0) (flat_map (fun m => [HSet (moment_expr m); HObs]) ms)) ms
       end
   end.
 
@@ -105,19 +143,29 @@ Definition shape_ok (std : stddefs) (e : vexpr) (t : ty) (s : sval) : bool :=
   | _, _ => false
   end.
 
+Definition mon_val (std : stddefs) (e : vexpr) (oty : option ty) (oser : option sval) (ports : option (list ty))
+                   (nin : nat) (linked : bool) : bool :=
+  std_okb std &&
+  match oty, oser with
+  | Some t, Some s =>
+      (if wf_expr std e then has_type_b std s t else true) &&     (* the value inhabits the type it reports *)
+      shape_ok std e t s &&
+      match ports with
+      | Some ps => forallb (fun p => same_tyb p t) ps && Nat.eqb nin 0 && linked
+      | None => false
+      end
+  (* nothing was built: legitimate only for a StaticArrayVal over a linear element, or for a description outside
+     the property's domain that the implementation refuses (see `refused`) *)
+  | None, _ => negb (constructible e) || negb (wf_expr std e)
+  | Some _, None => negb (wf_expr std e)
+  end.
+
 Definition mon (c : case) : bool :=
   match c with
-  | CVal std e oty oser ports nin linked =>
-      std_okb std &&
-      match oty, oser with
-      | Some t, Some s =>
-          (if wf_expr std e then has_type_b std s t else true) &&     (* the value inhabits the type it reports *)
-          shape_ok std e t s &&
-          match ports with
-          | Some ps => forallb (fun p => same_tyb p t) ps && Nat.eqb nin 0 && linked
-          | None => false
-          end
-      | None, _ => negb (constructible e)
-      | Some _, None => false
-      end
+  | CVal std e oty oser ports nin linked => mon_val std e oty oser ports nin linked
+  (* every moment of a history is judged like a fresh value of the description of that moment: what is reported /
+     offered / emitted NOW is about the value held NOW *)
+  | CSeq std ms =>
+      negb (Nat.eqb (length ms) 0) &&
+      forallb (fun m => match m with MVal e oty oser ports nin linked => mon_val std e oty oser ports nin linked end) ms
   end.
